@@ -166,6 +166,48 @@ def guarded_by_all_test(fn, cfg, blk):
     return False
 
 
+def guarded_through_helper(prog, fn, cfg, blk):
+    """blk is dominated by the Some-arm of a match on the result of a local helper whose every `Some(..)` is itself built under the
+    "not all zero" outcome of an all-zero test (the line-to-bytes conversion extracted into a function)"""
+    for i, p, full, c in calls(fn):
+        g = prog.fns.get(p)
+        if g is None or g["crate"] != fn["crate"]:
+            continue
+        rty = g["locals"][0]["ty"]
+        if not (isinstance(rty, dict) and rty.get("k") == "adt" and rty.get("path") == "core::option::Option"):
+            continue
+        dest = c["dest"]["local"]
+        # the switch on the discriminant of the call's result
+        some_t = None
+        b = c["target"]
+        seen = set()
+        while b is not None and b not in seen:
+            seen.add(b)
+            blk_ = fn["blocks"][b]
+            reads_discr = any("assign" in s_ and isinstance(s_["assign"][1], dict) and "discr" in s_["assign"][1] and s_["assign"][1]["discr"].get("local") == dest for s_ in blk_["stmts"])
+            t = blk_["term"]
+            if t and "switch" in t and reads_discr:
+                tm = {v: tb for v, tb in t["switch"]["targets"]}
+                some_t = tm.get(1, t["switch"]["otherwise"] if 1 not in tm else None)
+                break
+            b = cfg.succ[b][0] if len(cfg.succ[b]) == 1 else None
+        if some_t is None or not cfg.dominates(some_t, blk):
+            continue
+        # every Some(..) built in the helper is under the all-zero test's "not all zero" outcome
+        gcfg = cfg_of(g)
+        somes = []
+        for bi, gb in enumerate(g["blocks"]):
+            for s_ in gb["stmts"]:
+                if "assign" in s_ and isinstance(s_["assign"][1], dict):
+                    ag = s_["assign"][1].get("aggregate")
+                    if ag and ag.get("kind") == "adt" and ag.get("adt") == "core::option::Option" and ag.get("variant") == 1 and not s_["assign"][0]["proj"] \
+                            and s_["assign"][0]["local"] == 0:
+                        somes.append(bi)
+        if somes and all(guarded_by_all_test(g, gcfg, bi) for bi in somes):
+            return True
+    return False
+
+
 def malformed_rule(rep, prog):
     rid = rep.rule("R3", "no panic site lies between read_line and the decode call in either client: line slicing must use non-panicking accessors")
     for name, path in sorted(MAINS.items()):
@@ -203,7 +245,7 @@ def malformed_rule(rep, prog):
             if key in ALLOW:
                 # the allow-listed reason is structural: the site must be dominated by the "not all zero" outcome of the all-zero
                 # test (which is also what rejects an empty vector)
-                if guarded_by_all_test(fn, cfg, blk):
+                if guarded_by_all_test(fn, cfg, blk) or guarded_through_helper(prog, fn, cfg, blk):
                     continue
                 rep.violation("R3", "%s:%s:%s:unguarded" % (name, kind, detail),
                               "%s: %s %s at %s is no longer preceded on every path by the all-zero test that rejects an empty line, so an empty '*;' line panics the client" % (name, kind, detail, site_where(sp)), site=site_where(sp))
